@@ -1,9 +1,151 @@
-(* C03 -- property theorems only. *)
+(* C03 -- property theorems only.  Each is closed by [exact] of a lemma proved in
+   Proofs/C03.v or Proofs/C03_w.v; Print Assumptions beneath each. *)
 From Coq Require Import List NArith ZArith Bool.
 Import ListNotations.
-Require Import Verif.Lib.Wire Verif.Gen.Facts_C03 Verif.Model.C03 Verif.Proofs.C03.
+Require Import Verif.Lib.Wire Verif.Gen.Facts_C03 Verif.Model.C03 Verif.Proofs.C03 Verif.Proofs.C03_w.
 
-Theorem C03_call_reg_runs : forall rq v t,
-  call_reg rq v = Some t -> qualifies rq v = true /\ t = r_tag v.
-Proof. exact call_reg_runs. Qed.
-Print Assumptions C03_call_reg_runs.
+(* The outcome of the lookup is one the declarative specification allows: the body that runs
+   belongs to a qualifying candidate (name, classifier, interfaces in the two resolution
+   orders, all predicates true) than which no qualifying candidate is strictly more specific
+   (earlier request interface = route-bound before global; earlier context interface; same slot
+   and more predicates); Not Found exactly when no candidate qualifies.
+   Full-strength statement (false of the faithful model, see C03_lookup_winner_refuted): the
+   same without the hypothesis [no_accept regs]. *)
+Theorem C03_lookup_winner_partial : forall ao regs cls rq,
+  Forall reg_wf regs -> NoDup (map key regs) -> no_accept regs ->
+  NoDup (q_req_sro rq) -> NoDup (q_ctx_sro rq) -> order_respects regs ->
+  spec_ok cls regs rq (call_view (register_all ao regs) cls rq) = true.
+Proof. exact lookup_winner. Qed.
+Print Assumptions C03_lookup_winner_partial.
+
+(* the same for registrations as add_view makes them (order, phash and predicates computed by
+   PredicateList.make from keyword arguments): the arithmetic premise is discharged *)
+Theorem C03_lookup_winner_made_partial : forall ao names regs cls rq,
+  (length names <= 20)%nat -> Forall (made_by names) regs ->
+  Forall (fun v => (n_preds v <= 400)%nat) regs ->
+  NoDup (map key regs) -> no_accept regs ->
+  NoDup (q_req_sro rq) -> NoDup (q_ctx_sro rq) ->
+  spec_ok cls regs rq (call_view (register_all ao regs) cls rq) = true.
+Proof. exact lookup_winner_made. Qed.
+Print Assumptions C03_lookup_winner_made_partial.
+
+Theorem C03_lookup_winner_refuted :
+  exists ao regs cls rq,
+    Forall reg_wf regs /\ NoDup (map key regs) /\ NoDup (q_req_sro rq) /\ NoDup (q_ctx_sro rq)
+    /\ order_respects regs /\ ~ no_accept regs
+    /\ spec_ok cls regs rq (call_view (register_all ao regs) cls rq) = false.
+Proof. exact lookup_winner_refuted. Qed.
+Print Assumptions C03_lookup_winner_refuted.
+
+(* a view with a failing predicate never runs -- for any registry state whatsoever *)
+Theorem C03_failing_pred_never_runs : forall R cls rq t,
+  call_view R cls rq = Ran t ->
+  exists x, In x (tried R cls rq) /\ qualifies rq x = true /\ r_tag x = t.
+Proof. exact failing_pred_never_runs. Qed.
+Print Assumptions C03_failing_pred_never_runs.
+
+(* the search continues past every mismatch: Not Found only when nothing that is tried qualifies *)
+Theorem C03_not_found_only_if_none : forall R cls rq,
+  not_found (call_view R cls rq) -> forall x, In x (tried R cls rq) -> qualifies rq x = false.
+Proof. exact not_found_only_if_none. Qed.
+Print Assumptions C03_not_found_only_if_none.
+
+(* more predicates sort first, while the integer division has headroom *)
+Theorem C03_order_more_first : forall s1 s2 k1 k2 S,
+  (0 <= s1 -> 0 <= s2 <= S -> 0 <= k2 < k1 ->
+   S * (k2 + 2) + (k2 + 1) * (k2 + 2) < max_order ->
+   order_of s1 k1 < order_of s2 k2)%Z.
+Proof. exact order_more_first. Qed.
+Print Assumptions C03_order_more_first.
+
+Theorem C03_order_more_first_default : forall s1 s2 k1 k2,
+  (0 <= s1 -> 0 <= s2 < 2 ^ 21 -> 0 <= k2 < k1 -> k2 <= 400 -> order_of s1 k1 < order_of s2 k2)%Z.
+Proof. exact order_more_first_default. Qed.
+Print Assumptions C03_order_more_first_default.
+
+Theorem C03_order_bound_tight_refuted :
+  exists s1 s2 k1 k2 S,
+    (0 <= s1 /\ 0 <= s2 <= S /\ 0 <= k2 < k1
+     /\ ~ (S * (k2 + 2) + (k2 + 1) * (k2 + 2) < max_order)
+     /\ ~ (order_of s1 k1 < order_of s2 k2))%Z.
+Proof. exact order_bound_tight_refuted. Qed.
+Print Assumptions C03_order_bound_tight_refuted.
+
+(* what make computes: order from the OR of the weights of listed names, phash from the texts *)
+Theorem C03_make_spec : forall names kw m,
+  make names kw = Some m ->
+  m_order m = order_of (score_of (m_weights m)) (Z.of_nat (length (m_preds m)))
+  /\ m_phash m = concat (map pred_phash (m_preds m))
+  /\ Forall (weight_below (Z.of_nat (length names))) (m_weights m).
+Proof. exact make_spec. Qed.
+Print Assumptions C03_make_spec.
+
+(* an override (same slot and phash) replaces the single view of its slot under either interface *)
+Theorem C03_override_replaces : forall ao R a b,
+  R (r_slot a) IView = None -> R (r_slot a) ISecuredView = None -> R (r_slot a) IMultiView = None ->
+  r_slot b = r_slot a -> r_phash b = r_phash a ->
+  let R2 := register_view ao (register_view ao R a) b in
+  R2 (r_slot a) (vt_of b) = Some (CView b) /\ forall vt, vt <> vt_of b -> R2 (r_slot a) vt = None.
+Proof. exact override_replaces. Qed.
+Print Assumptions C03_override_replaces.
+
+(* built-in predicates *)
+Theorem C03_pred_request_method : forall v l,
+  as_tuple v = Some l ->
+  exists vals, mk_method v = Some (PMethod vals) /\
+    forall rq, eval_pred rq (PMethod vals) = true <->
+               (In (q_method rq) l \/ (q_method rq = rm_head /\ In rm_get l)).
+Proof. exact pred_request_method. Qed.
+Print Assumptions C03_pred_request_method.
+
+Theorem C03_pred_request_param : forall rq reqs,
+  eval_pred rq (PParam reqs) = true <->
+  forall k v, In (k, v) reqs ->
+    exists actual, assoc k (q_params rq) = Some actual /\ (v = None \/ v = Some actual).
+Proof. exact pred_request_param. Qed.
+Print Assumptions C03_pred_request_param.
+
+Theorem C03_pred_match_param : forall rq reqs,
+  eval_pred rq (PMatchParam reqs) = true <->
+  exists md, q_matchdict rq = Some md /\ md <> [] /\ forall k v, In (k, v) reqs -> assoc k md = Some v.
+Proof. exact pred_match_param. Qed.
+Print Assumptions C03_pred_match_param.
+
+Theorem C03_pred_header_present : forall rq name,
+  eval_pred rq (PHeader [(name, None)]) = true <-> assoc name (q_headers rq) <> None.
+Proof. exact pred_header_present. Qed.
+Print Assumptions C03_pred_header_present.
+
+Theorem C03_pred_header_value : forall rq name pat,
+  eval_pred rq (PHeader [(name, Some pat)]) = true <->
+  exists value, assoc name (q_headers rq) = Some value /\ regex_match (q_regex rq) pat value = true.
+Proof. exact pred_header_value. Qed.
+Print Assumptions C03_pred_header_value.
+
+Theorem C03_pred_xhr : forall rq b, eval_pred rq (PXhr b) = true <-> q_xhr rq = b.
+Proof. exact pred_xhr. Qed.
+Print Assumptions C03_pred_xhr.
+
+Theorem C03_pred_is_authenticated : forall rq b, eval_pred rq (PIsAuth b) = true <-> q_auth rq = b.
+Proof. exact pred_is_authenticated. Qed.
+Print Assumptions C03_pred_is_authenticated.
+
+Theorem C03_pred_containment : forall rq i s,
+  eval_pred rq (PContainment i s) = true <-> exists loc, In loc (q_lineage rq) /\ In i (snd loc).
+Proof. exact pred_containment. Qed.
+Print Assumptions C03_pred_containment.
+
+Theorem C03_pred_physical_path : forall rq val,
+  eval_pred rq (PPhysPath val) = true <->
+  q_has_name rq = true /\ rev (map fst (q_lineage rq)) = val.
+Proof. exact pred_physical_path. Qed.
+Print Assumptions C03_pred_physical_path.
+
+Theorem C03_pred_custom : forall rq i, eval_pred rq (PCustom i) = true <-> In i (q_truth rq).
+Proof. exact pred_custom. Qed.
+Print Assumptions C03_pred_custom.
+
+Theorem C03_pred_not : forall rq p,
+  eval_pred rq (PNot p) = if nonempty (pred_phash p) then negb (eval_pred rq p) else eval_pred rq p.
+Proof. exact pred_not. Qed.
+Print Assumptions C03_pred_not.
